@@ -235,11 +235,11 @@ theorem C02_dispatcher {γ : Type} {ctl : Controller γ} {E : γ → γ → Prop
 panic (`Err.panic`: a Rust debug assertion / slice out of range, or the model's own fuel) or `Err.mem`.
 
 The class of controllers is `Chunk.TextBlind ctl E` (Lemmas/ChunkDisp.lean): `E` — "equal up to the
-fragmentation of the open text node" — is reflexive and transitive and respected by every controller
-operation; tokens are observed through their absolute form (`normToken`), attribute buffers through their
-in-range slices; content is never
-removed (`shouldEmit = true`); text chunks never fail, never switch the encoding, are serialised to their own
-bytes, and delivering a text chunk in two pieces is `E`-equivalent to delivering it in one. -/
+fragmentation of the open text node" — is transitive, holds on its domain `E g g` (the theorems take `E g g`
+for the initial state) and is respected by every controller operation; tokens are observed through their
+absolute form (`normToken`), attribute buffers through their in-range slices; content is never removed
+(`shouldEmit = true`); on the domain text chunks never fail, never switch the encoding, are serialised to
+their own bytes, and delivering a text chunk in two pieces is `E`-equivalent to delivering it in one. -/
 
 /-- **C02, any chunking against one write.** -/
 theorem C02_chunk_vs_single {γ : Type} (w : World γ) (E : γ → γ → Prop) (g : γ) (cfg : Settings) (cs : List Bytes)
